@@ -41,6 +41,25 @@ func (c *Ctx) stateLocked(fn *ssa.Function, in ssa.Instruction, ro *atpRoles) bo
 	return false
 }
 
+// condInSectionOf: the condition was established in the critical section (of the client's state mutex) in which `in`
+// runs: by an instruction of fn, by a call of fn whose outcome implies it, or by the callers that hold the mutex when
+// they call fn.
+func (c *Ctx) condInSectionOf(fn *ssa.Function, cond core.Cond, in ssa.Instruction, ro *atpRoles) bool {
+	if anchor := cond.Anchor(); anchor != nil {
+		return anchor.Parent() == fn && c.sameCriticalSection(fn, anchor, in, ro)
+	}
+	if !cond.Entry {
+		return false
+	}
+	m := ro.mutexOf[ro.clientT]
+	for _, l := range c.lockedAt(fn, in) {
+		if strings.HasSuffix(l, "."+m) && c.sectionOf(fn, in, l) == c.entryMark(fn) {
+			return true
+		}
+	}
+	return false
+}
+
 // sameCriticalSection: a comes before b, the state mutex is held at both, and no path from a to b releases it.
 func (c *Ctx) sameCriticalSection(fn *ssa.Function, a, b ssa.Instruction, ro *atpRoles) bool {
 	if !instrBefore(a, b) || !c.stateLocked(fn, a, ro) || !c.stateLocked(fn, b, ro) {
@@ -834,11 +853,9 @@ func (c *Ctx) ruleSticky(rule string) {
 					if ok {
 						// the load that decided must lie in the critical section of the insert
 						ok = false
-						for _, bb := range fn.Blocks {
-							for _, y := range bb.Instrs {
-								if ld, isLd := y.(*ssa.UnOp); isLd && c.isFieldLoad(ld, ro.clientT, sticky) && c.sameCriticalSection(fn, y, in, ro) {
-									ok = true
-								}
+						for _, cond := range core.AcceptedConds(fn, foundNil) {
+							if c.condInSectionOf(fn, cond, in, ro) {
+								ok = true
 							}
 						}
 					}
@@ -1418,89 +1435,135 @@ func (c *Ctx) ruleRefusalCloses(rule string) {
 		if ch == nil || ei < 0 {
 			continue
 		}
-		closes := func(f *ssa.Function, depth int) bool { return false }
-		_ = closes
-		gen := func(b *ssa.BasicBlock) bool {
-			for _, in := range b.Instrs {
-				call, ok := in.(*ssa.Call)
-				if !ok {
-					continue
-				}
-				if bi, ok := call.Call.Value.(*ssa.Builtin); ok && bi.Name() == "close" && call.Call.Args[0] == ssa.Value(ch) {
-					return true
-				}
-				// a helper that closes its (non-nil) channel parameter on every path
-				if callee := call.Call.StaticCallee(); callee != nil {
-					for ai, a := range call.Call.Args {
-						if a != ssa.Value(ch) || ai >= len(callee.Params) || len(callee.Blocks) == 0 {
-							continue
-						}
-						p := callee.Params[ai]
-						if everyPathSat(callee.Blocks[0], func(bb *ssa.BasicBlock, in2 ssa.Instruction) bool {
-							if c2, ok := in2.(*ssa.Call); ok {
-								if bi, ok := c2.Call.Value.(*ssa.Builtin); ok && bi.Name() == "close" && c2.Call.Args[0] == ssa.Value(p) {
-									return true
-								}
-							}
-							if ifi, ok := in2.(*ssa.If); ok {
-								// `if p != nil { close(p) }`: the nil outcome needs no close
-								if x, _, isNil := core.NilCmp(ifi.Cond); isNil && x == ssa.Value(p) {
-									for _, sc := range bb.Succs {
-										for _, y := range sc.Instrs {
-											if c3, ok := y.(*ssa.Call); ok {
-												if bi, ok := c3.Call.Value.(*ssa.Builtin); ok && bi.Name() == "close" && c3.Call.Args[0] == ssa.Value(p) {
-													return true
-												}
-											}
-										}
-									}
-								}
-							}
-							return false
-						}) {
-							return true
-						}
-					}
-				}
-			}
-			return false
-		}
-		isNilEdge := func(cond core.Cond) bool {
-			x, neq, isNil := core.NilCmp(cond.V)
-			return isNil && neq != cond.True && x == ssa.Value(ch)
-		}
-		hold := mustHoldGen(fn, isNilEdge, gen)
-		cnt := 0
-		for _, ret := range core.ReturnsOf(fn) {
-			if !c.M.ProvablyNonNilError(core.RetVal(ret, ei), ret.Block()) {
-				continue
-			}
-			n++
-			cnt++
-			k := key(rule, c.M.Key(fn), sprintf("refusal #%d closes the signal channel the run was given", cnt))
-			taken := false
-			for _, cond := range core.CondsAt(ret.Block()) {
-				if ex, ok := cond.V.(*ssa.Extract); ok && ex.Index == 1 && cond.True {
-					if lk, ok := ex.Tuple.(*ssa.Lookup); ok && lk.CommaOk && c.isFieldLoad(lk.X, ro.clientT, ro.pending) {
-						taken = true
-					}
-				}
-			}
-			switch {
-			case taken:
-				c.R.Ok(rule, k, c.M.InstrPos(ret), "refusal of a run", "the run ID is taken: the channel may be the one the run that holds the ID uses, it is left alone")
-			case hold[ret.Block()] || gen(ret.Block()):
-				c.R.Ok(rule, k, c.M.InstrPos(ret), "refusal of a run", "on every path to it the channel parameter was closed (or found nil)")
-			default:
-				c.R.Bad(rule, k, c.M.InstrPos(ret), "a refused run leaves the caller's signal channel open for ever",
-					"the function that would register the channel returns an error without closing it: nothing knows the channel, nothing will ever close it, and the caller's goroutine that ranges over it never ends")
-			}
-		}
+		n += c.refusalsClose(rule, fn, ch, ro, map[*ssa.Function]bool{})
 	}
 	if n < 2 {
 		c.R.Unresolved(rule, sprintf("rejecting returns of the function that registers a run's signal channel (%d found, at least 2 expected)", n))
 	}
 	c.ruleUnregisteredCloses(rule)
+}
+
+// closesChan: the block closes the channel ch, or hands it to a helper that closes its (non-nil) channel parameter on
+// every path.
+func (c *Ctx) closesChan(b *ssa.BasicBlock, ch ssa.Value) bool {
+	for _, in := range b.Instrs {
+		call, ok := in.(*ssa.Call)
+		if !ok {
+			continue
+		}
+		if bi, ok := call.Call.Value.(*ssa.Builtin); ok && bi.Name() == "close" && call.Call.Args[0] == ch {
+			return true
+		}
+		// a helper that closes its (non-nil) channel parameter on every path
+		if callee := call.Call.StaticCallee(); callee != nil {
+			for ai, a := range call.Call.Args {
+				if a != ch || ai >= len(callee.Params) || len(callee.Blocks) == 0 {
+					continue
+				}
+				p := callee.Params[ai]
+				if everyPathSat(callee.Blocks[0], func(bb *ssa.BasicBlock, in2 ssa.Instruction) bool {
+					if c2, ok := in2.(*ssa.Call); ok {
+						if bi, ok := c2.Call.Value.(*ssa.Builtin); ok && bi.Name() == "close" && c2.Call.Args[0] == ssa.Value(p) {
+							return true
+						}
+					}
+					if ifi, ok := in2.(*ssa.If); ok {
+						// `if p != nil { close(p) }`: the nil outcome needs no close
+						if x, _, isNil := core.NilCmp(ifi.Cond); isNil && x == ssa.Value(p) {
+							for _, sc := range bb.Succs {
+								for _, y := range sc.Instrs {
+									if c3, ok := y.(*ssa.Call); ok {
+										if bi, ok := c3.Call.Value.(*ssa.Builtin); ok && bi.Name() == "close" && c3.Call.Args[0] == ssa.Value(p) {
+											return true
+										}
+									}
+								}
+							}
+						}
+					}
+					return false
+				}) {
+					return true
+				}
+			}
+		}
+	}
+	return false
+}
+
+// refusalsClose examines the rejecting ways out of fn, which was given the caller's signal channel as ch; a way out
+// that passes on the verdict of a helper which was given the channel too is examined in the helper (the checks that
+// refuse a run, moved into a function of their own). Returns the number of rejecting ways out found.
+func (c *Ctx) refusalsClose(rule string, fn *ssa.Function, ch *ssa.Parameter, ro *atpRoles, seen map[*ssa.Function]bool) int {
+	if seen[fn] {
+		return 0
+	}
+	seen[fn] = true
+	if c.refusalHelpers == nil {
+		c.refusalHelpers = map[*ssa.Function]bool{}
+	}
+	ei := core.ErrorResultIndex(fn.Signature)
+	if ei < 0 {
+		return 0
+	}
+	gen := func(b *ssa.BasicBlock) bool { return c.closesChan(b, ch) }
+	isNilEdge := func(cond core.Cond) bool {
+		x, neq, isNil := core.NilCmp(cond.V)
+		return isNil && neq != cond.True && x == ssa.Value(ch)
+	}
+	hold := mustHoldGen(fn, isNilEdge, gen)
+	n, cnt := 0, 0
+	for _, site := range core.RetSites(fn, ei) {
+		if core.IsNilConst(site.Val) {
+			continue
+		}
+		// the verdict of a helper that was given the channel
+		if call, idx, ok := core.CallResult(core.Unwrap(site.Val)); ok {
+			if helper := core.StaticBody(&call.Call); helper != nil && idx == core.ErrorResultIndex(helper.Signature) {
+				passed := false
+				for ai, a := range call.Call.Args {
+					if a == ssa.Value(ch) && ai < len(helper.Params) {
+						passed = true
+						c.refusalHelpers[helper] = true
+						n += c.refusalsClose(rule, helper, helper.Params[ai], ro, seen)
+					}
+				}
+				if passed {
+					continue
+				}
+			}
+		}
+		if !c.M.ProvablyNonNilError(site.Val, site.Block()) {
+			continue
+		}
+		n++
+		cnt++
+		k := key(rule, c.M.Key(fn), sprintf("refusal #%d closes the signal channel the run was given", cnt))
+		taken := false
+		for _, cond := range site.Conds() {
+			if ex, ok := cond.V.(*ssa.Extract); ok && ex.Index == 1 && cond.True {
+				if lk, ok := ex.Tuple.(*ssa.Lookup); ok && lk.CommaOk && c.isFieldLoad(lk.X, ro.clientT, ro.pending) {
+					taken = true
+				}
+			}
+		}
+		closed := false
+		for _, b := range site.Path {
+			if hold[b] || gen(b) {
+				closed = true
+			}
+		}
+		switch {
+		case taken:
+			c.R.Ok(rule, k, c.M.InstrPos(site.Ret), "refusal of a run", "the run ID is taken: the channel may be the one the run that holds the ID uses, it is left alone")
+		case closed:
+			c.R.Ok(rule, k, c.M.InstrPos(site.Ret), "refusal of a run", "on every path to it the channel parameter was closed (or found nil)")
+		default:
+			c.R.Bad(rule, k, c.M.InstrPos(site.Ret), "a refused run leaves the caller's signal channel open for ever",
+				"the function that would register the channel returns an error without closing it: nothing knows the channel, nothing will ever close it, and the caller's goroutine that ranges over it never ends")
+		}
+	}
+	return n
 }
 
 // R-SIGCHAN, never-registered clause: above the registering function, every method of the client that receives the
@@ -1537,7 +1600,8 @@ func (c *Ctx) ruleUnregisteredCloses(rule string) {
 				}
 			}
 		}
-		if registers {
+		if registers || c.refusalHelpers[fn] {
+			// (a helper that holds the registering function's refusals is examined with it)
 			continue
 		}
 		gen := func(b *ssa.BasicBlock) bool {
@@ -1570,7 +1634,7 @@ func (c *Ctx) ruleUnregisteredCloses(rule string) {
 			n++
 			cnt++
 			k := key(rule, c.M.Key(fn), sprintf("return #%d is reached only after the caller's signal channel was handed on or closed", cnt))
-			if hold[ret.Block()] || gen(ret.Block()) {
+			if hold[ret.Key()] || gen(ret.Block()) {
 				c.R.Ok(rule, k, c.M.InstrPos(ret), "end of a call that was given the caller's signal channel", "on every path the channel was passed to a callee, closed, or left to a deferred call")
 			} else {
 				c.R.Bad(rule, k, c.M.InstrPos(ret), "a call returns without anybody having taken charge of the caller's signal channel",
